@@ -14,8 +14,8 @@ import (
 )
 
 func TestZZBoundedC11(t *testing.T) {
-	fmt.Println("BOUNDED-BOUND: regexes FLAG ^? ATOM{1,3} $? over 14 atoms and 5 flag prefixes, operators =~ and !~, candidate values of length 0..3 over {a,b,c,A,newline,x,e-acute}")
-	atoms := []string{"a", "b", "ab", "[ab]", "[a-c]", "(a|b)", "[ac]", "(ab|c)", "a?", "a*", ".", "(a$|b)", "b{2}", "[a\u00e9]"}
+	fmt.Println("BOUNDED-BOUND: regexes FLAG ^? ATOM{1,3} $? over 16 atoms (one of them a character class that matches nothing, one an open-ended repetition) and 5 flag prefixes, operators =~ and !~, candidate values of length 0..3 over {a,b,c,A,newline,x,e-acute}")
+	atoms := []string{"a", "b", "ab", "[ab]", "[a-c]", "(a|b)", "[ac]", "(ab|c)", "a?", "a*", ".", "(a$|b)", "b{2}", "[a\u00e9]", `[^\x00-\x{10FFFF}]`, "a{2,}"}
 	flags := []string{"", "(?i)", "(?m)", "(?s)", "(?U)"}
 	heads := []string{"^", "", "^^"}
 	tails := []string{"$", "", "$$"}
